@@ -104,9 +104,24 @@ ConstReport(n, e, c) ==
   PrintT("REPORT " \o ToJson([l |-> n, i |-> 0, class |-> c, devs |-> <<>>, kind |-> "consts",
                              ref |-> "one typed constant per listed string", obs |-> ToJson(e.consts), impl |-> "-"]))
 
+(* ---- programs that do not compile (C09: "the default literal always has the Go type of the field") ---- *)
+\* e.built = FALSE: the real generator succeeded but the Go compiler rejected the emitted package.  The
+\* unit's field nobuild (computed by the MC module) lists the deviations that predict exactly that.
+NotBuilt(e) == "built" \in DOMAIN e /\ ~e.built
+BuildClass(e) == IF \E i \in DOMAIN e.unit.nobuild : e.unit.nobuild[i] \in Devs THEN "known" ELSE "violation"
+BuildReport(n, e, c) ==
+  PrintT("REPORT " \o ToJson([l |-> n, i |-> 0, class |-> c, devs |-> e.unit.nobuild, kind |-> "build",
+                             ref |-> "emitted package compiles", obs |-> "does not compile", impl |-> "-"]))
+
 Count(cls, c) == Cardinality({i \in DOMAIN cls : cls[i] = c})
 
 Step(n, e, t) ==
+  IF NotBuilt(e) THEN
+     LET c == BuildClass(e) IN
+     IF BuildReport(n, e, c)
+     THEN [t EXCEPT !.known = @ + (IF c = "known" THEN 1 ELSE 0), !.viol = @ + (IF c = "violation" THEN 1 ELSE 0)]
+     ELSE t
+  ELSE
   LET cls0 == [i \in DOMAIN e.res |-> Class(e, i)]
       tc   == IF IsSized(e) THEN SizedTypeClass(e) ELSE "none"
       cc   == IF HasConsts(e) THEN ConstClass(e) ELSE "none"
